@@ -88,11 +88,28 @@ func c05RunX(rc *simrt.RunCtx, faults, inject bool) {
 	if rc.Pick(4, "wl.small-read-buffers") == 0 {
 		// read buffers below the 32 KiB split of NoiseGrpcConn.Read
 		st.readSize = func(string) int { return c15ReadSize(rc) }
+		// (tiny reads make a run expensive: keep the transfer small)
+		inner := st.planBytes
+		st.planBytes = func(side string, k int) int {
+			if n := inner(side, k); n < 40000 {
+				return n
+			}
+			return 16 + rc.Pick(40000, "wl.plan-small")
+		}
 	}
 	rc.Knob("mode", mode)
 	// the client closes a connection once both plans are through; the next
 	// Dial/Accept then yields the next connection of the session
 	st.afterDone = func(in *instance) bool { return in.side == "client" }
+	// think time between connections; a session that has already cycled
+	// through many connections slows down (each handshake costs real time)
+	think := []time.Duration{0, 0, 50 * time.Millisecond, time.Second, 4 * time.Second}[rc.Pick(5, "wl.think")]
+	st.redialPause = func(k int) time.Duration {
+		if k >= 24 && think < 3*time.Second {
+			return 3 * time.Second
+		}
+		return think
+	}
 	rc.Knob("case", fmt.Sprintf("faults=%v heal=%v maxV=%d auth=%d big=%v", faults, healAt, maxV, authSize, big))
 	rc.Sample("faults=%v heal=%v maxVersion=%d auth=%dB big=%v", faults, healAt, maxV, authSize, big)
 	st.start()
